@@ -1,9 +1,21 @@
-"""C06 — invalidate-on-write effect obligations for every bundled widget class (pyvc/effects.py):
-path-sensitive, on the real ASTs re-read from /repo. One obligation per (class, public mutator)."""
+"""C06 — static (AST, path-sensitive) obligations of pyvc/effects.py on the real ASTs re-read from /repo:
+
+(a) invalidate-on-write: one obligation per (bundled widget class, public mutator);
+(b) dependency registration: one obligation per bundled container / decoration class — on every normal-exit path
+    of `render` the returned canvas depends on (explicit `set_depends`, or composition from the children's own
+    canvases) every child widget that the rendering consulted (`render/rows/pack/get_cursor_coords/get_pref_col`
+    called on it, directly or through `self.` helpers); elements of `self.contents` that a loop skips after they
+    were consulted need an explicit dependency on the whole collection.  See the comment block in pyvc/effects.py.
+    `weakref` / garbage-collection lifetime of the cached canvases is out of scope here.
+
+(c) finalized canvases refuse mutation: in every public method / property setter of the canvas classes each write of the
+    canvas is reached only after `if self.widget_info [and self.cacheable]: raise self._finalized_error`.
+
+The deductive contracts of CanvasCache / the render wrappers / Canvas.finalize are in contracts/C06_store.py."""
 import urwid
 
 from pyvc.api import REGISTRY, Contract
-from pyvc.effects import analyse_class
+from pyvc.effects import analyse_class, analyse_finalized_guard, analyse_render_deps
 
 CLASSES = [
     urwid.Text, urwid.Edit, urwid.IntEdit, urwid.Divider, urwid.SolidFill, urwid.Padding, urwid.Filler, urwid.Pile,
@@ -20,6 +32,40 @@ EXEMPT = {
 }
 
 
+# (b) containers / decorations whose render consults child widgets (every bundled class that has children)
+DEP_CLASSES = [
+    urwid.Padding, urwid.Filler, urwid.AttrMap, urwid.AttrWrap, urwid.Pile, urwid.Columns, urwid.Frame, urwid.Overlay,
+    urwid.BoxAdapter, urwid.Scrollable, urwid.ScrollBar, urwid.LineBox, urwid.GridFlow, urwid.ListBox,
+    urwid.WidgetPlaceholder, urwid.WidgetDisable, urwid.WidgetWrap, urwid.PopUpLauncher, urwid.PopUpTarget,
+    urwid.Button, urwid.CheckBox, urwid.RadioButton,
+]
+
+# Obligations of (b) that fail on the unchanged tree — each replayed on the real classes (cached render != render
+# after CanvasCache.clear()); left in, excluded from nothing:
+# FAILS-ON-TREE: Pile.render     p = Pile([Text("a"), inner]) with inner = Pile([]) (0 rows): p.render((5,)); then
+#                inner.contents.append((Text("x"), ("pack", None))); p.render((5,)) still shows ['a    '] (fresh: 'a','x');
+#                same with Pile([inner]) alone: the blank SolidCanvas exit (`if not combinelist`) has no dependency at all.
+# FAILS-ON-TREE: Columns.render  c = Columns([("pack", t), Text("b")]) with t = Text("") (packs to 0 columns, column hidden):
+#                c.render((6,)); t.set_text("zz"); c.render((6,)) still shows 'b     ' (fresh: 'zzb   ').
+# FAILS-ON-TREE: Frame.render    f = Frame(SolidFill("."), header=h) with h = Pile([]) (0 rows => htrim == 0, header not rendered):
+#                f.render((4,3)); h.contents.append((Text("HDR"), ("pack", None))); f.render((4,3)) still has no header row.
+# FAILS-ON-TREE: Overlay.render  o = Overlay(t, SolidFill("."), "center", ("relative", 100), "top", "pack") with t = Pile([]):
+#                o.render((6,)) has 0 rows (exit `not bottom_c.rows()`); t.contents.append((Text("hey"), ("pack", None)));
+#                o.render((6,)) and o.rows((6,)) still answer 0 rows (fresh: 1 row 'hey   ').
+# In all four the child was consulted through rows()/pack() only, was never rendered, so it is not in the cache and its
+# _invalidate() reaches nobody.
+
+# Exemptions of (b) (each needed on the unchanged tree; the key is printed by a failing obligation):
+DEP_EXEMPT = {
+    "ListBox.render@ListBox.render#ret0:*": "the `middle is None` exit is taken only when the walker's focus widget is None, i.e. the body is empty, and then "
+                                       "_set_focus_complete cannot have consulted any widget (the path is infeasible: the enumeration does not correlate the two); "
+                                       "a body that becomes non-empty fires 'modified' -> ListBox._invalidate",
+    "PopUpTarget.render@PopUpTarget.render#ret0:original_widget": "_current_widget is the original widget itself or the Overlay that _update_overlay builds with the original widget "
+                                                             "as its bottom_w; the canvas returned is that widget's own canvas, whose dependency on the original widget is "
+                                                             "Overlay.render's obligation",
+}
+
+
 class _EffectsTask(Contract):
     """Not a function contract: a bundle of static (AST) obligations."""
 
@@ -27,23 +73,42 @@ class _EffectsTask(Contract):
     property = "C06"
     assumed = False
     static_only = True
+    group = "invalidate-on-write"
 
-    def __init__(self, cls):
+    def __init__(self, cls, kind="effects"):
         self.cls_ = cls
-        self.target = f"effects:{cls.__module__}.{cls.__name__}"
+        self.kind = kind
+        self.target = f"{kind}:{cls.__module__}.{cls.__name__}"
+        if kind == "deps":
+            self.group = "render-depends-on-consulted-children"
+        if kind == "guard":
+            self.group = "finalized-canvas-refuses-mutation"
 
 
-def _make(cls):
-    t = _EffectsTask(cls)
+def _make(cls, kind="effects"):
+    t = _EffectsTask(cls, kind)
     REGISTRY[t.target] = t
     return t
 
 
+# (c) finalized canvases refuse mutation: every canvas class of urwid/canvas.py
+from urwid import canvas as _canvas  # noqa: E402
+
+GUARD_CLASSES = [_canvas.Canvas, _canvas.TextCanvas, _canvas.SolidCanvas, _canvas.CompositeCanvas]  # BlankCanvas has no writing method
+
 for _c in CLASSES:
     _make(_c)
+for _c in DEP_CLASSES:
+    _make(_c, "deps")
+for _c in GUARD_CLASSES:
+    _make(_c, "guard")
 
 
 def run_effects(target):
     t = REGISTRY[target]
+    if t.kind == "deps":
+        return analyse_render_deps(t.cls_, DEP_EXEMPT)
+    if t.kind == "guard":
+        return analyse_finalized_guard(t.cls_)
     results, rs = analyse_class(t.cls_, EXEMPT)
     return results, rs
